@@ -81,10 +81,10 @@ def message_cases(draw, cells):
     lines = draw(G.instance_lines(v, m, tree, ec, conforming=True, p_opt=1))
     flags = []
     order_ok = G.eligible(v, m, tree)
-    for _ in range(draw(st.sampled_from([0, 0, 0, 1, 2]))):
+    for zk in range(draw(st.sampled_from([0, 0, 0, 1, 2, 3, 3]))):
         # locally defined segments: accepted at any place by both levels; they have no place in the structure, so STRICT
         # (structure order) may encode them elsewhere than TOLERANT (creation order): lines compared as a multiset
-        z = R.enc_segment(draw(st.sampled_from(['ZXX', 'ZA1'])), {1: draw(S.textual_leaf(v, ec, 1)), 3: draw(S.textual_leaf(v, ec, 2))}, ec)
+        z = R.enc_segment(draw(st.sampled_from(['ZXX', 'ZA1', 'ZA1'])), {1: draw(S.textual_leaf(v, ec, 1)), 2: 'u%d' % zk, 3: draw(S.textual_leaf(v, ec, 2))}, ec)      # (field 2 makes the line unique)
         lines.insert(draw(st.integers(1, len(lines))), z)
         flags.append('z-segment')
         order_ok = False
@@ -186,6 +186,24 @@ def check_input(case, acc=None):
         if not case.get('compare_order', True):
             # a segment name that occurs at several places may be grouped at another place than the text order suggests;
             # STRICT then encodes in structure order and TOLERANT in creation order (documented): compare as multisets
+            # locally defined segments have no place in the structure: STRICT encodes them after the placed children of their
+            # own parent - but among themselves in the order in which that parent lists them (as TOLERANT does)
+            def z_orders(el):
+                kids = [c for c in el.children if type(c).__name__ == 'Segment' and c.name[:1] == 'Z']
+                if len(kids) > 1:
+                    mine = [k.to_er7() for k in kids]
+                    lines = [l for l in el.to_er7().split('\r') if l in set(mine)]
+                    if [l for l in lines if l[:1] == 'Z'] != mine and len(set(mine)) == len(mine):
+                        return (mine, lines)
+                for c in el.children:
+                    if type(c).__name__ == 'Group':
+                        r = z_orders(c)
+                        if r:
+                            return r
+                return None
+            zo = z_orders(s[1])
+            if zo:
+                out.append(('C05-locally-defined-segments-reordered', '%s\nlisted   %r\nencoded  %r' % (what, zo[0][:6], zo[1][:6])))
             es, et = sorted(es.split('\r')), sorted(et.split('\r'))
         if es != et:
             out.append(('C05-encodings-differ', '%s\nSTRICT   %r\nTOLERANT %r' % (what, es[:300], et[:300])))
@@ -285,6 +303,8 @@ def history_cases(draw, versions):
 def check(case, acc=None):
     if case['kind'] == 'history':
         return check_history(case, acc)
+    if case['kind'] == 'override':
+        return check_override(case, acc)
     return check_input(case, acc)
 
 
@@ -308,8 +328,76 @@ def _run(case, acc):
     return vs
 
 
+DT_POOL = ('ST', 'NM', 'ID', 'CE', 'CX', 'XPN', 'TX', 'DT', 'HD', 'CWE', 'varies')
+
+
+def check_override(case, acc=None):
+    """a datatype assigned to an existing STRICT field / component: refused, or - if taken - the element still validates"""
+    from hl7apy.core import Segment
+    from hl7apy.exceptions import HL7apyException
+    v, s, fname, newdt, depth = case['v'], case['s'], case['f'], case['dt'], case['depth']
+    out = []
+    what = '%s %s.%s datatype := %s' % (v, s, fname, newdt)
+    try:
+        try:
+            seg = Segment(s, version=v, validation_level=STRICT)
+            f = seg.add_field(fname)
+            target = f
+            if depth == 2:
+                ch = T.ref_children(v, {r[0]: r for r in T.seg_fields(v, s)}[fname][2])
+                if not ch:
+                    return []
+                target = f.add_component(ch[case['ci'] % len(ch)][0])
+        except HL7apyException:
+            return []          # e.g. a withdrawn position: STRICT does not build it at all
+        old = target.datatype
+        if newdt == old or not (T.is_base(v, newdt) or newdt in T.complex_datatypes(v) or newdt == 'varies'):
+            return []
+        case['_nt'] = True
+        try:
+            target.datatype = newdt
+        except (HL7apyException, ValueError):
+            if acc is not None:
+                acc.extra['override:refused'] += 1
+            return []
+        if target.datatype == old:
+            return []
+        if acc is not None:
+            acc.extra['override:taken:%s' % old] += 1
+        if T.is_base(v, newdt):
+            try:
+                target.value = lit.valid(newdt, 1)
+            except (HL7apyException, ValueError):
+                pass
+        errs, warns = _report(seg)
+        bad = [e for e in errs if not e.startswith('Missing required child')]
+        if bad:
+            out.append(('C05-strict-let-a-datatype-be-overridden', '%s (was %s): accepted, then validate() reports %s' % (what, old, bad[:2])))
+    except Exception as e:
+        return [('C05-override-raises:%s' % type(e).__name__, '%s: %s' % (what, e))]
+    return out
+
+
+@st.composite
+def override_cases(draw, cells):
+    v, s = draw(st.sampled_from(cells))
+    rows = T.seg_fields(v, s)
+    varies = [r for r in rows if r[2][2] == 'varies']
+    row = draw(st.sampled_from(varies)) if (varies and draw(st.booleans())) else draw(st.sampled_from(rows))
+    return {'kind': 'override', 'v': v, 's': s, 'f': row[0], 'dt': draw(st.sampled_from(DT_POOL)), 'depth': draw(st.sampled_from([1, 1, 2])),
+            'ci': draw(st.integers(0, 20))}
+
+
 def run_shard(shard, acc):
     k = shard['kind']
+    if k == 'override':
+        def run(case, acc):
+            vs = check_override(case, acc)
+            acc.case(h(case), case.pop('_nt', False), sample=case, label='datatype-override')
+            return vs
+        hyp_collect(acc, override_cases([tuple(c) for c in shard['cells'] if T.seg_fields(c[0], c[1]) and not T.segment_defect(c[0], c[1])]),
+                    run, shard['seed'], shard['n'], shard['shrink'], rounds=4)
+        return
     if k == 'segment':
         hyp_collect(acc, segment_cases([tuple(c) for c in shard['cells']]), _run, shard['seed'], shard['n'], shard['shrink'], rounds=6)
     elif k == 'message':
@@ -330,4 +418,6 @@ def plan(tier, seed):
         shards.append({'kind': 'message', 'cells': mcells[i::(4 if q else 12)], 'seed': seed * 1000 + 100 + i, 'n': 100 if q else 700, 'shrink': not q})
     for i in range(4 if q else 12):
         shards.append({'kind': 'history', 'versions': T.VERSIONS, 'seed': seed * 1000 + 200 + i, 'n': 200 if q else 1500, 'shrink': not q})
+    for i in range(2 if q else 8):
+        shards.append({'kind': 'override', 'cells': cells[i::(2 if q else 8)], 'seed': seed * 1000 + 300 + i, 'n': 300 if q else 3000, 'shrink': not q})
     return shards
